@@ -1,6 +1,7 @@
 import WrglModel.Driver.C01
 import WrglModel.Model.Transfer
 import WrglModel.Model.Encoding
+import WrglModel.Spec.Finder
 open Lean
 namespace Wrgl.Drv
 
@@ -24,9 +25,24 @@ def handleC07 (op : String) (input impl : Json) : Except String Json := do
     let tables ← (← arrFld input "tables").mapM fun t => do
       return ({ id := ← natFld t "id", blocks := ← asNatList (← fld t "blocks") } : TblInfo)
     let sizes ← (← arrFld input "sizes").mapM asNatList
-    let toSend ← asNatList (fldD input "toSend" (Json.arr #[]))
-    let tts ← asNatList (fldD input "tablesToSend" (Json.arr #[]))
-    let common ← asNatList (fldD input "common" (Json.arr #[]))
+    -- a negotiated transfer: the destination names the commits it wants and what it has; the commit
+    -- list, the table selection and the common commits are decided by the real ClosedSetsFinder and
+    -- come with the outcome ("neg"). The transfer model is run on that list; what the destination must
+    -- hold in the end is derived from the wants alone.
+    let negotiated := (fldD input "negotiated" (Json.bool false)).getBool?.toOption.getD false
+    let wants ← asNatList (fldD input "wants" (Json.arr #[]))
+    let depth ← asNat (fldD input "depth" (jNat 0))
+    if negotiated && resClass impl == "panic" then return reply Json.null false ["no-panic"]
+    if negotiated && resClass impl != "ok" then
+      -- the wants are reachable from the source's refs and the haves are honest: neither the
+      -- negotiation nor the transfer of what it selected may fail
+      let kind := (fldD impl "kind" Json.null).compress
+      let inNegotiation := kind == "\"negotiate\"" || kind == "\"commits-to-send\"" || kind == "\"tables-to-send\""
+      return reply Json.null false [if inNegotiation then "reachable-wants-negotiated" else "receiver-accepts-sender-order"]
+    let neg := fldD (fldD impl "val" Json.null) "neg" Json.null
+    let toSend ← asNatList (fldD (if negotiated then neg else input) (if negotiated then "sent" else "toSend") (Json.arr #[]))
+    let tts ← asNatList (fldD (if negotiated then neg else input) (if negotiated then "tables" else "tablesToSend") (Json.arr #[]))
+    let common ← asNatList (fldD (if negotiated then neg else input) (if negotiated then "commons" else "common") (Json.arr #[]))
     let maxSize0 ← natFld input "maxSize"
     let maxSize := if maxSize0 == 0 then 2147483648 else maxSize0
     let dB ← asNatList (fldD input "dstBlocks" (Json.arr #[]))
@@ -79,8 +95,21 @@ def handleC07 (op : String) (input impl : Json) : Except String Json := do
     let arrival := ipacks.flatten
     -- expected final contents: what was there plus everything the sent commits reference (for selected tables)
     let sentCommits := toSend.eraseDups
-    let needTables := (sentCommits.filterMap (fun c => (g.get? c).map (·.table))).filter (fun t => tts.contains t && tables.any (·.id == t))
-    let needBlocks := needTables.flatMap (fun t => ((tables.find? (·.id == t)).map (·.blocks)).getD [])
+    let blocksOf := fun (ts : List Nat) => ts.flatMap (fun t => ((tables.find? (·.id == t)).map (·.blocks)).getD [])
+    let tablesOfCommits := fun (cs : List Nat) => ((cs.filterMap (fun c => (g.get? c).map (·.table))).filter (fun t => tables.any (·.id == t))).eraseDups
+    let sentTables := (sentCommits.filterMap (fun c => (g.get? c).map (·.table))).filter (fun t => tts.contains t && tables.any (·.id == t))
+    -- negotiated: every ancestor of a want must be there in the end, with its table when it lies within the
+    -- depth (plain distance from the nearest want; everything when depth = 0), and nothing outside the
+    -- wanted history may have been added. Given list: exactly what the list names.
+    let wantedHistory := ancestorsOfAll g wants
+    let dist := distFrom g [] (g.length + 1) wants [] 0 []
+    let withinDepth := wantedHistory.filter (fun c => depth == 0 || dist.any (fun (x, d) => x == c && d < depth))
+    let mustCommits := if negotiated then wantedHistory else sentCommits
+    let needTables := if negotiated then tablesOfCommits withinDepth else sentTables
+    let needBlocks := blocksOf needTables
+    let mayCommits := if negotiated then wantedHistory else sentCommits
+    let mayTables := if negotiated then tablesOfCommits wantedHistory else sentTables
+    let mayBlocks := blocksOf mayTables
     let hasKey := fun (k : Nat × Nat) => ikeys.contains k
     let posOf := fun (k : Nat × Nat) => arrival.findIdx? (· == k)
     let before := fun (a b : Nat × Nat) => match posOf a, posOf b with
@@ -101,10 +130,11 @@ def handleC07 (op : String) (input impl : Json) : Except String Json := do
     let viol :=
       (if identical then [] else ["objects-byte-identical"]) ++
       (if done then [] else ["receiver-reports-done"]) ++
-      (if sentCommits.all (fun c => hasKey (1, c)) && needTables.all (fun t => hasKey (2, t)) && needBlocks.all (fun b => hasKey (3, b)) then [] else ["all-sent-objects-present"]) ++
-      (if ikeys.all (fun k => (k.1 == 1 && (dC.contains k.2 || sentCommits.contains k.2)) || (k.1 == 2 && (dT.contains k.2 || needTables.contains k.2)) ||
-            (k.1 == 3 && (dB.contains k.2 || needBlocks.contains k.2))) then [] else ["nothing-else-stored"]) ++
-      (if needTables.all (fun t => (((tables.find? (·.id == t)).map (·.blocks)).getD []).all (fun b => before (3, b) (2, t))) then [] else ["blocks-before-their-table"]) ++
+      (if mustCommits.all (fun c => hasKey (1, c)) && needTables.all (fun t => hasKey (2, t)) && needBlocks.all (fun b => hasKey (3, b)) then [] else ["all-sent-objects-present"]) ++
+      (if ikeys.all (fun k => (k.1 == 1 && (dC.contains k.2 || mayCommits.contains k.2)) || (k.1 == 2 && (dT.contains k.2 || mayTables.contains k.2)) ||
+            (k.1 == 3 && (dB.contains k.2 || mayBlocks.contains k.2))) then [] else ["nothing-else-stored"]) ++
+      (if !negotiated || common.all dC.contains then [] else ["commons-held-by-destination"]) ++
+      (if mayTables.all (fun t => (((tables.find? (·.id == t)).map (·.blocks)).getD []).all (fun b => before (3, b) (2, t))) then [] else ["blocks-before-their-table"]) ++
       (if sentCommits.all (fun c => ((g.get? c).map (·.parents)).getD [] |>.all (fun p => before (1, p) (1, c))) then [] else ["parents-before-children"]) ++
       (if ipacks.all (fun p => !p.isEmpty) || arrival.isEmpty then [] else ["packfiles-nonempty"]) ++
       tviol.flatten.eraseDups
